@@ -582,6 +582,7 @@ fn run_inner(h: &History, cfg: &RunCfg) -> Outcome {
         w.allow_update_disabled = matches!(h.profile.as_str(), "C07" | "C05" | "C14" | "C01");
         w.matrix = h.profile == "C08";
         w.prop = cfg.prop.clone();
+        w.signal = Some(el.get_signal());
     });
     calloop::verif::set_yield_hook(Some(hist_hook));
     let mut steps_run = 0;
@@ -741,6 +742,8 @@ fn teardown(el: EventLoop<'static, ()>, end: u8, judge: bool, dead: bool) {
     let idle_handles: Vec<_> = w(|w| w.idles.iter_mut().map(|i| i.handle.take()).collect());
     drop(idle_handles);
     let handle = w(|w| w.handle.take());
+    let sig = w(|w| w.signal.take());
+    drop(sig);
     let disps: Vec<Option<DispZ>> = w(|w| w.srcs.iter_mut().map(|s| s.disp.take()).collect());
     let wakers: Vec<_> = w(|w| w.tasks.iter_mut().map(|t| t.waker.take()).collect());
     if end == 0 {
